@@ -5,3 +5,4 @@ import Props.C13
 import Props.C14
 import Props.C16
 import Props.C20
+import Props.C19
